@@ -30,7 +30,7 @@ LEVEL = "exploration"
 SHARDS = {"quick": 4, "thorough": 16}
 RULE = (
     "Hypothesis draws 2..3 workloads (2..5 blocks each; block = context block / decorated call with typeguard or beartype / ill-typed "
-    "decorated call / top-level items; items = check(name,size), failing check after a tentative binding, PyTree['?k n','T'] over 2..6 "
+    "decorated call / top-level items / a block entered through one context-manager object created by the main thread; items = check(name,size), failing check after a tentative binding, PyTree['?k n','T'] over 2..6 "
     "leaves (matching or with one broken leaf), structure-less PyTree, PyTree nested in PyTree, bindings read); in a third of the cases the workers are started from inside a context of the spawning thread, in copies of its contextvars context and a schedule (0..10 segments of 1..80 traced "
     "lines, then round robin with quantum 1..8). Non-trivial = >=2 context switches landed while the pre-empted thread was inside a "
     "jaxtyping check / memo function (name of the interrupted frame); distinct by (workloads, schedule)."
@@ -60,6 +60,7 @@ class AnnSet:
         self.PT_PLAIN = PyTree[Shaped[np.ndarray, d("m n")]]
         self.PT_NESTED = PyTree[PyTree[self.Q], "T"]  # the inner check runs as is_leaf of the outer flatten
         self.PT_NESTED_INT = PyTree[PyTree[int]]
+        self.CTX = jaxtyped("context")  # one context-manager object, created by the main thread and entered by the workers
         self.FNS = {}
         ANN, ANN2 = self.ANN, self.ANN2
         with warnings.catch_warnings():
@@ -100,13 +101,13 @@ def bindings_text():
         _tl.buf = None
 
 
-def run_items(items, out, A):
+def run_items(items, out, A, in_ctx=False):
     for it in items:
         k = it[0]
         if k == "inner-ctx":
             # a context block nested in whatever encloses the items (a decorated call, another block)
             with jaxtyped("context"):
-                run_items(it[1], out, A)
+                run_items(it[1], out, A, True)
             out.append(f"inner-ctx-left|{bindings_text()}")
             continue
         if k == "check":
@@ -130,7 +131,11 @@ def run_items(items, out, A):
             v = obs.verdict(np.zeros((3, 2)), A.Q)
         else:
             raise AssertionError(it)
-        out.append(f"{k}:{v}|{bindings_text()}")
+        bt = bindings_text()
+        out.append(f"{k}:{v}|{bt}")
+        if k == "check" and in_ctx and v == "True" and f"{it[1]}={it[2]}" not in bt.split(";"):
+            # absolute (not differential) invariant: inside a context an accepted check of a plain named axis leaves it bound
+            out.append(f"!!inside a context, an accepted check of axis {it[1]} with size {it[2]} left the bindings {bt!r}")
 
 
 def run_workload(blocks, A):
@@ -138,20 +143,23 @@ def run_workload(blocks, A):
     out = []
 
     def runner(items, x):
-        run_items(items, out, A)
+        run_items(items, out, A, True)
         return x
 
     for b in blocks:
         kind = b[0]
         if kind == "ctx":
             with jaxtyped("context"):
-                run_items(b[1], out, A)
+                run_items(b[1], out, A, True)
+        elif kind == "ctx-shared":
+            with A.CTX:
+                run_items(b[1], out, A, True)
         elif kind == "top":
             run_items(b[1], out, A)
         elif kind == "call":
             _, ck, psize, a, bb, items, ret_ok = b
             try:
-                A.FNS[ck](np.zeros((psize,)), np.zeros((a, bb)), items, runner if ret_ok else (lambda items, x: (run_items(items, out, A), np.zeros((psize + 1,)))[1]))
+                A.FNS[ck](np.zeros((psize,)), np.zeros((a, bb)), items, runner if ret_ok else (lambda items, x: (run_items(items, out, A, True), np.zeros((psize + 1,)))[1]))
                 out.append("call:returned")
             except TypeCheckError as e:
                 axes, structs = obs.parse_bindings(str(e))
@@ -180,6 +188,10 @@ def check_case(ctx, case):
     workloads = case["workloads"]
     solo = [sched.run_solo(lambda w=w: run_workload(w, SHARED)) for w in workloads]
     solo2 = [sched.run_solo(lambda w=w: run_workload(w, SHARED)) for w in workloads]
+    for i, tr in enumerate(solo):
+        bad = [x for x in tr if isinstance(x, str) and x.startswith("!!")] if isinstance(tr, list) else []
+        if bad:
+            raise Violation("solo-binding", case, f"workload {i} run ALONE on a fresh thread: {bad[0][2:]}; workload = {workloads[i]}")
     if solo != solo2:
         raise HarnessError(f"solo runs are not reproducible: {solo} vs {solo2}")
     A = SHARED
@@ -193,12 +205,12 @@ def check_case(ctx, case):
         with jaxtyped("context"):
             assert isinstance(np.zeros((5,)), SHARED.ANN["a"]) and isinstance(np.zeros((5, 6)), SHARED.ANN2)
             before = bindings_text()
-            results, s = sched.run_interleaved(fns, [tuple(x) for x in case["segments"]], case["quantum"], copy_context=True)
+            results, s = sched.run_interleaved(fns, [tuple(x) for x in case["segments"]], case["quantum"], copy_context=True, instructions=bool(case.get("instructions")))
             after = bindings_text()
         if before != after:
             raise Violation("parent-bindings-changed", case, f"the spawning thread's bindings were {before!r}, after the workers ran: {after!r}")
     else:
-        results, s = sched.run_interleaved(fns, [tuple(x) for x in case["segments"]], case["quantum"])
+        results, s = sched.run_interleaved(fns, [tuple(x) for x in case["segments"]], case["quantum"], instructions=bool(case.get("instructions")))
     if s.errors:
         raise HarnessError(f"scheduler: {s.errors}")
     inside = sum(1 for _, fn in s.switches if fn in sched.INSIDE_CHECK)
@@ -215,7 +227,7 @@ def check_case(ctx, case):
         raise Violation("main-thread-state", case, "after the threads finished, the main thread sees bindings or a leaf label")
     ctx.extra["context_switches"] = ctx.extra.get("context_switches", 0) + len(s.switches)
     ctx.extra["switches_inside_check"] = ctx.extra.get("switches_inside_check", 0) + inside
-    ctx.note(case, inside >= 2, classes=(["fresh-annotations"] if case.get("fresh") else []) + [f"threads-{len(workloads)}", f"quantum-{case['quantum']}", f"switches-{min(len(s.switches) // 50, 10) * 50}+", f"inside-{min(inside // 20, 10) * 20}+"],
+    ctx.note(case, inside >= 2, classes=(["fresh-annotations"] if case.get("fresh") else []) + (["instruction-level-in-storage"] if case.get("instructions") else []) + [f"threads-{len(workloads)}", f"quantum-{case['quantum']}", f"switches-{min(len(s.switches) // 50, 10) * 50}+", f"inside-{min(inside // 20, 10) * 20}+"],
              sample={"workloads": workloads, "segments": case["segments"], "quantum": case["quantum"], "switches": len(s.switches), "switches_inside_a_check": inside})
 
 
@@ -237,6 +249,7 @@ block_st = st.one_of(
     st.tuples(st.just("call"), st.sampled_from(["typeguard", "beartype"]), size, size, size, items_st, st.sampled_from([True, True, False])),
     st.tuples(st.just("call-bad"), st.sampled_from(["typeguard", "beartype"]), size, size, size),
     st.tuples(st.just("top"), items_st),
+    st.tuples(st.just("ctx-shared"), items_st),
 )
 case_st = st.fixed_dictionaries({
     "workloads": st.lists(st.lists(block_st, min_size=2, max_size=5), min_size=2, max_size=3),
@@ -244,6 +257,7 @@ case_st = st.fixed_dictionaries({
     "quantum": st.sampled_from([1, 2, 3, 5, 8, 1, 2]),
     "parent_context": st.sampled_from([False, False, True]),
     "fresh": st.sampled_from([False, True, False]),
+    "instructions": st.sampled_from([True, False]),
 })
 
 
@@ -255,7 +269,7 @@ def run(ctx):
     @given(case_st)
     def cases(case):
         check_case(ctx, {"workloads": to_lists(case["workloads"]), "segments": to_lists(case["segments"]), "quantum": case["quantum"],
-                         "parent_context": case["parent_context"], "fresh": case["fresh"]})
+                         "parent_context": case["parent_context"], "fresh": case["fresh"], "instructions": case["instructions"]})
 
     ctx.hyp(cases, max_examples=ctx.n(60, 600))
 
